@@ -100,6 +100,19 @@ Theorem C03_distributions_py_pdf_nonneg :
 Proof. exact gen_pdf_nonneg. Qed.
 Print Assumptions C03_distributions_py_pdf_nonneg.
 
+(* ---- the SOURCE of phasegen/expm.py (pinned on every run by translate/expm2coq.py into gen/ExpmGen.v): the matrix exponential `Backend.expm`
+   that the loops above take as their parameter is the one of the LAST registered backend, SciPy's binary64 expm when none was registered
+   (that SciPy's expm approximates exp is trusted, see DESIGN 2.6) ---- *)
+From PG Require Import gen.ExpmGen proofs.GenExpmEquiv.
+Theorem C03_expm_py_backend_in_force :
+  forall (M : Type) (scipy_linalg_expm : M -> M),
+    (forall m, Backend_expm M (Backend_default M scipy_linalg_expm) m = scipy_linalg_expm m) /\
+    (forall (regs : list (backend M)) m,
+       Backend_expm M (fold_left (Backend_register M) regs (Backend_default M scipy_linalg_expm)) m
+       = last regs (Backend_default M scipy_linalg_expm) m).
+Proof. intros M e. split; [apply gen_default_backend_is_scipy | apply gen_backend_in_force]. Qed.
+Print Assumptions C03_expm_py_backend_in_force.
+
 From mathcomp Require Import all_ssreflect all_algebra.
 From Coq Require Import Reals.
 From PG Require Import proofs.ExpLaws analysis.Rstruct analysis.RSums analysis.MExp analysis.MExpLaws.
